@@ -91,6 +91,19 @@ impl FunBuilder {
   }
 }
 
+#[cfg(laythe_verif)]
+impl FunBuilder {
+  /// verification hook: the arity this builder was created with
+  pub fn verif_arity(&self) -> Arity {
+    self.arity
+  }
+
+  /// verification hook: the current max slot count
+  pub fn verif_max_slots(&self) -> i32 {
+    self.max_slots
+  }
+}
+
 impl FunBuilder {
   /// Build a final immutable Fun from this builder
   pub fn build(self, chunk: Chunk) -> Fun {
